@@ -1,6 +1,6 @@
 """E5 (results): values returned by lookups that input or history can make null must be tested before they are dereferenced."""
 from facts import walk, render, is_call, null_test
-from engines import ff, nth_arg, receiver, path, is_this_like
+from engines import ff, nth_arg, receiver, path, is_this_like, render_prov, render_canon
 from nullflow import nonnull_at
 
 # callee predicate -> label
@@ -215,8 +215,12 @@ def run(F, rep, rid, kinds=None):
             # the invariant is about the lookup, not about the name of the local that holds its result
             parts = key.split('|')
             alt = '|'.join(parts[:2] + [render(src)[:50]] + parts[3:])
-            if key in inv or alt in inv:
-                rep.exempt(rid, key, inv.get(key) or inv[alt])
+            # ... nor about the name a loop gives to its element (range-for variable, structured binding): provenance form
+            alt2 = '|'.join(parts[:2] + [render_prov(f, src)[:70]] + parts[3:])
+            # ... nor about the names of locals and parameters at all: canonical form (single-definition locals spelled out, parameters by position)
+            alt3 = '|'.join(parts[:2] + ['~' + render_canon(f, src)[:110]] + parts[3:])
+            if key in inv or alt in inv or alt2 in inv or alt3 in inv:
+                rep.exempt(rid, key, inv.get(key) or inv.get(alt) or inv.get(alt2) or inv[alt3])
             else:
                 rep.fail(rid, key, f.where(deref), '`%s` can be null (%s) and is dereferenced as `%s` without a test' % (render(src)[:50], key.split('|')[1], render(f.parent(deref) or deref)[:60]))
         else:
